@@ -71,19 +71,31 @@ Proof.
 Qed.
 
 (* XcdrProofs' member hypothesis for the writer's value *)
+Lemma flat_no_opt : forall a, flat_aty a = true -> ty_any has_opt_member (ty_of_aty a) = false.
+Proof. destruct a; try discriminate; reflexivity. Qed.
+
+Lemma flat_Bok : forall V a, flat_aty a = true -> Bok V u32_max (ty_of_aty a).
+Proof.
+  intros V a Ha. split; [lia|]. intros _ H. rewrite (flat_no_opt a Ha) in H. discriminate.
+Qed.
+
 Lemma writer_mem_hyp : forall V E t2 xv, fam V t2 ->
   wt (ty_of t2) (VData xv) = true ->
-  mem_hyp V E (codec_members (ad_members t2)) xv.
+  mem_hyp V E u32_max (codec_members (ad_members t2)) xv.
 Proof.
   intros V E t2 xv F Hwt. unfold ty_of in Hwt.
   destruct (wt_struct_parts _ _ _ Hwt) as [Hs [Hk Hgo]].
-  split; [rewrite ids_codec; exact (fam_nodup V t2 F)|]. split.
-  - intros _. apply Forall_forall. intros mt Hin. apply in_codec in Hin as [m [Hm ->]]. cbn [fst].
-    exact (fam_nopt V t2 F m Hm).
+  assert (Hnone : existsb (fun mx : minfo * ty => m_opt (fst mx)) (codec_members (ad_members t2)) = false).
+  { apply Bool.not_true_is_false. intros H. apply existsb_exists in H as [mt [Hin Ho]].
+    apply in_codec in Hin as [m [Hm ->]]. cbn [fst] in Ho. rewrite (fam_nopt V t2 F m Hm) in Ho. discriminate. }
+  split; [rewrite ids_codec; exact (fam_nodup V t2 F)|]. split; [|split].
+  - intros _ H. rewrite Hnone in H. discriminate.
+  - apply Forall_forall. intros mt Hin Ho. apply in_codec in Hin as [m [Hm ->]]. cbn [fst] in Ho.
+    rewrite (fam_nopt V t2 F m Hm) in Ho. discriminate.
   - rewrite Forall_forall in *. intros mt Hin. specialize (Hgo mt Hin).
     destruct (lookup (m_id (fst mt)) xv) as [v'|] eqn:Hl; [|exact Hgo].
     apply in_codec in Hin as [m [Hm ->]]. cbn [fst snd] in *.
-    apply rt_ty; [|exact Hgo].
+    apply rt_ty; [|apply flat_Bok; exact (fam_flat V t2 F m Hm)|exact Hgo].
     apply flat_tgood. exact (fam_flat V t2 F m Hm).
 Qed.
 
@@ -126,13 +138,13 @@ Proof.
 Qed.
 
 Lemma decode_struct : forall V E x ms1 n rest acc p',
-  des_struct_nested V E rest x (cvD V E rest ms1) 0 = DOk acc p' ->
+  des_struct_nested V E rest x (cvD V E rest ms1) (mkC 0 (blen rest)) 0 = DOk acc p' ->
   decode (TStruct x ms1) ([0; repr_id V E x; 0; n] ++ rest) = Ok (VData acc).
 Proof.
-  intros V E x ms1 n rest acc p' H. unfold decode. cbn [app].
+  intros V E x ms1 n rest acc p' H. unfold decode, des_top. cbn [app].
   replace (blen (0 :: repr_id V E x :: 0 :: n :: rest) <? 4) with false.
   2:{ symmetry. apply Z.ltb_ge. rewrite !blen_cons. pose proof (blen_nonneg rest). lia. }
-  pose proof (dispatch_ok V E x) as Hd. cbv zeta in Hd. rewrite Hd. cbn [bind is_aggr].
+  rewrite dispatch_ok. cbn [is_aggr bind].
   rewrite des_ty_struct. unfold as_data. rewrite H. reflexivity.
 Qed.
 
@@ -172,8 +184,9 @@ Theorem evolution_prefix : forall V E tc t1 t2 xv,
   ad_ext t2 <> Mutable ->
   struct_assignable tc (cto_of t1) (cto_of t2) = Ok true ->
   wt (ty_of t2) (VData xv) = true ->
-  exists bs d, encode V E (ty_of t2) (VData xv) = Ok bs /\
-               decode (ty_of t1) bs = Ok (VData d) /\ projects t1 xv d = true.
+  exists bs, encode V E (ty_of t2) (VData xv) = Ok bs /\
+    (blen bs <= u32_max ->
+     exists d, decode (ty_of t1) bs = Ok (VData d) /\ projects t1 xv d = true).
 Proof.
   intros V E tc t1 t2 xv Hf1 Hf2 Hx Has Hwt.
   pose proof (fam_of V t1 Hf1) as F1. pose proof (fam_of V t2 Hf2) as F2.
@@ -199,15 +212,24 @@ Proof.
       split; [destruct x1; [specialize (Hfin eq_refl); lia|reflexivity|congruence]|].
       unfold flat_members. apply forallb_forall. intros mt Hmt. apply in_codec in Hmt as [m [Hm ->]]. cbn [fst snd].
       rewrite (flat_aty_ty _ (fam_flat V _ F1 m (Hj1 m Hm))), (fam_nopt V _ F1 m (Hj1 m Hm)). reflexivity. }
-  destruct (struct_prefix_decodes V E x1 (codec_members a1) (codec_members a2) (codec_members r1)
-              (codec_members r2) xv Hx HM HH Hcase 0 ltac:(lia)) as [body [Es Ds]].
+  destruct (struct_prefix_decodes V E u32_max x1 (codec_members a1) (codec_members a2) (codec_members r1)
+              (codec_members r2) xv ltac:(lia) Hx HM HH Hcase 0 ltac:(lia)) as [body [Es Ds]].
   rewrite <- codec_members_app, <- Hms2 in Es.
   destruct (encode_struct V E x1 (codec_members ms2) xv body _ Es) as [Henc [Hn Hmod]].
   set (n := pad_count (4 + blen body)) in *.
-  destruct (Ds [] n eq_refl) as [acc' [p' [Hdec Hlook]]]. cbn [app] in Hdec.
+  exists ([0; repr_id V E x1; 0; n] ++ body ++ zeros n).
+  split; [exact Henc|]. intros Hsize.
+  pose proof (blen_nonneg body) as Hbnn.
+  assert (Hbsz : blen body <= u32_max).
+  { cbn [app] in Hsize. rewrite !blen_cons, blen_app, blen_zeros in Hsize by lia. lia. }
+  destruct (Ds Hbsz [] n (mkC 0 (blen (body ++ zeros n)))) as [acc' [p' [Hdec Hlook]]].
+  { reflexivity. }
+  { cbn [c_org c_lim]. rewrite blen_app, blen_zeros by lia. lia. }
+  { cbn [c_lim app]. lia. }
+  cbn [app c_org Z.add] in Hdec.
   rewrite <- codec_members_app, <- Hms1 in Hdec.
-  exists ([0; repr_id V E x1; 0; n] ++ body ++ zeros n), acc'.
-  split; [exact Henc|]. split; [exact (decode_struct V E x1 _ n _ acc' p' Hdec)|].
+  exists acc'.
+  split; [exact (decode_struct V E x1 _ n _ acc' p' Hdec)|].
   (* the projection *)
   assert (Hids : aids a1 = aids a2) by now apply Forall2_ids.
   assert (Hnd1 : nodup_z (aids a1 ++ aids r1) = true).
@@ -336,11 +358,11 @@ Proof.
   destruct (k =? k'); [inversion Hl; subst; exact H1|]. exact (IH k v H2 Hl).
 Qed.
 
-Lemma writer_whyp : forall E t2 xv, fam V2 t2 -> ids_u16 t2 = true ->
+Lemma writer_whyp : forall E t2 xv, fam V2 t2 ->
   wt (ty_of t2) (VData xv) = true -> small_dyn xv = true ->
   whyp E (codec_members (ad_members t2)) xv.
 Proof.
-  intros E t2 xv F Hu Hwt Hsm. unfold ty_of in Hwt.
+  intros E t2 xv F Hwt Hsm. unfold ty_of in Hwt.
   destruct (wt_struct_parts _ _ _ Hwt) as [Hs [Hk Hgo]].
   split; [rewrite ids_codec; exact (fam_nodup V2 t2 F)|].
   intros k v Hl.
@@ -355,44 +377,41 @@ Proof.
   unfold am_id in Hid. rewrite Hid, Hl in Hgo.
   pose proof (flat_aty_ty _ (fam_flat V2 t2 F m Hm)) as Hft.
   split; [exact Hinc|]. split; [exact Hid|]. split.
-  { apply rt_ty; [|exact Hgo]. apply flat_tgood. exact (fam_flat V2 t2 F m Hm). }
+  { apply rt_ty; [|apply flat_Bok; exact (fam_flat V2 t2 F m Hm)|exact Hgo].
+    apply flat_tgood. exact (fam_flat V2 t2 F m Hm). }
   split; [now apply shift4_flat|]. split; [now apply lc5_flat|]. split.
-  { unfold ids_u16 in Hu. rewrite forallb_forall in Hu.
-    assert (Hin' : In k (aids (ad_members t2))) by (unfold aids; apply in_map_iff; exists m; now split).
-    specialize (Hu k Hin'). apply Z.ltb_lt in Hu. pose proof (fam_ids V2 t2 F m Hm). unfold am_id in *. lia. }
+  { pose proof (fam_ids V2 t2 F m Hm). unfold am_id in *. lia. }
   intros pos bs p Hser. eapply flat_size; [exact Hft| |exact Hser]. exact (small_dyn_lookup xv k v Hsm Hl).
 Qed.
 
 Theorem evolution_mutable : forall E tc t1 t2 xv,
   flat_desc t1 = true -> flat_desc t2 = true -> ad_ext t2 = Mutable ->
-  ids_u16 t1 = true -> ids_u16 t2 = true ->
   struct_assignable tc (cto_of t1) (cto_of t2) = Ok true ->
   wt (ty_of t2) (VData xv) = true -> small_dyn xv = true ->
   exists bs d, encode V2 E (ty_of t2) (VData xv) = Ok bs /\
                decode (ty_of t1) bs = Ok (VData d) /\ projects t1 xv d = true.
 Proof.
-  intros E tc t1 t2 xv Hf1 Hf2 Hx Hu1 Hu2 Has Hwt Hsm.
+  intros E tc t1 t2 xv Hf1 Hf2 Hx Has Hwt Hsm.
   pose proof (fam_of V2 t1 Hf1) as F1. pose proof (fam_of V2 t2 Hf2) as F2.
   destruct (assignable_shape tc t1 t2 Hf1 Hf2 Has) as [Hext Hshape].
-  pose proof (writer_whyp E t2 xv F2 Hu2 Hwt Hsm) as HW.
+  pose proof (writer_whyp E t2 xv F2 Hwt Hsm) as HW.
   destruct t1 as [x1 n1 ms1], t2 as [x2 n2 ms2]. cbn [ad_ext ad_members] in *. subst x2. subst x1.
   assert (Hty : forall mt1 mt2, In mt1 (codec_members ms1) -> In mt2 (codec_members ms2) ->
                   m_id (fst mt1) = m_id (fst mt2) -> snd mt1 = snd mt2).
   { intros mt1 mt2 H1 H2 Hid. apply in_codec in H1 as [m1 [Hm1 ->]]. apply in_codec in H2 as [m2 [Hm2 ->]].
     cbn [fst snd] in *. exact (Hshape m1 m2 Hm1 Hm2 Hid). }
-  assert (Hid1 : forall mt1, In mt1 (codec_members ms1) -> 0 <= m_id (fst mt1) < 65536).
+  assert (Hid1 : forall mt1, In mt1 (codec_members ms1) -> 0 <= m_id (fst mt1) < 268435456).
   { intros mt1 H1. apply in_codec in H1 as [m1 [Hm1 ->]]. cbn [fst].
-    unfold ids_u16 in Hu1. cbn [ad_members] in Hu1. rewrite forallb_forall in Hu1.
-    assert (Hin : In (am_id m1) (aids ms1)) by (unfold aids; now apply in_map).
-    specialize (Hu1 _ Hin). apply Z.ltb_lt in Hu1. pose proof (fam_ids V2 _ F1 m1 Hm1). unfold am_id in *. lia. }
+    pose proof (fam_ids V2 _ F1 m1 Hm1) as H. cbn [ad_members] in H. unfold am_id in *. lia. }
   destruct (mstruct_decodes E (codec_members ms1) (codec_members ms2) xv HW Hty Hid1 0 ltac:(lia))
     as [body [Es Ds]].
   assert (Es' : ser_struct_nested V2 E Mutable (cvS V2 E (codec_members ms2)) xv 0 = Ok (body, 0 + blen body))
     by exact Es.
   destruct (encode_struct V2 E Mutable (codec_members ms2) xv body _ Es') as [Henc [Hn Hmod]].
   set (n := pad_count (4 + blen body)) in *.
-  destruct (Ds [] n eq_refl ltac:(lia)) as [p' Hdec].
-  { cbn [app]. rewrite blen_app, blen_zeros by lia. exact Hmod. }
+  destruct (Ds [] n (mkC 0 (blen (body ++ zeros n))) eq_refl eq_refl ltac:(lia)) as [p' Hdec].
+  { reflexivity. }
+  { cbn [c_lim]. rewrite blen_app, blen_zeros by lia. exact Hmod. }
   cbn [app] in Hdec.
   exists ([0; repr_id V2 E Mutable; 0; n] ++ body ++ zeros n), (ins (codec_members ms1) xv []).
   split; [exact Henc|]. split.
